@@ -8,7 +8,11 @@
 // Case encoding (digest, chain): n = [len, pattern, misalignment, seed, split, crc_seed, fnv32_seed, fnv64_seed],
 // pattern 0 zeros, 1 0xFF, 2 i mod 251, 3 xorshift keyed by the length, 4 vg::expand(seed, len), 5 the blob s[0].
 #include <openssl/evp.h>
+#include <sys/mman.h>
 #include <zlib.h>
+
+#include <atomic>
+#include <thread>
 
 #include <phosg/Hash.hh>
 
@@ -202,6 +206,103 @@ static void run_vectors(const Case& c) {
   ctx().nontrivial_case();
 }
 
+
+// ---------------------------------------------------------------- inputs of 2^29 bytes and more
+//
+// The length field of the MD5/SHA padding is the bit count: at 2^29 bytes it no longer fits 32 bits, so a
+// length computed in 32 bits (or split into words wrongly) only shows on inputs this large. The input is a private
+// anonymous mapping of zero pages patterned sparsely (one byte per page), so it costs little real memory.
+// n = [size, stride_seed]
+static void run_huge(const Case& c) {
+  uint64_t size = c.u(0);
+  if (size < (1ULL << 29) - 64 || size > (1ULL << 29) + (1ULL << 20)) throw std::logic_error("C10: huge size outside the domain");
+  void* m = mmap(nullptr, size, PROT_READ | PROT_WRITE, MAP_PRIVATE | MAP_ANONYMOUS | MAP_NORESERVE, -1, 0);
+  if (m == MAP_FAILED) throw std::logic_error("C10: cannot map the input");
+  struct Unmap {
+    void* p;
+    size_t n;
+    ~Unmap() { munmap(p, n); }
+  } unmap{m, size};
+  char* p = static_cast<char*>(m);
+  for (uint64_t off = c.u(1) % 4096; off < size; off += 4096 * 257) p[off] = static_cast<char>(off >> 12 | 1);
+  p[size - 1] = 0x5A;
+  std::string e_md5 = evp(EVP_md5(), p, size), e_sha1 = evp(EVP_sha1(), p, size), e_sha256 = evp(EVP_sha256(), p, size);
+  std::string a = phosg::MD5(p, size).bin(), b = phosg::SHA1(p, size).bin(), d = phosg::SHA256(p, size).bin();
+  VCHECK(a == e_md5, "digest-huge:MD5", "MD5 of a ", size, "-byte input is ", lower_hex(a), " but the standard digest is ", lower_hex(e_md5));
+  VCHECK(b == e_sha1, "digest-huge:SHA1", "SHA1 of a ", size, "-byte input is ", lower_hex(b), " but the standard digest is ", lower_hex(e_sha1));
+  VCHECK(d == e_sha256, "digest-huge:SHA256", "SHA256 of a ", size, "-byte input is ", lower_hex(d), " but the standard digest is ", lower_hex(e_sha256));
+  uint32_t crc = phosg::crc32(p, size);
+  uint32_t rc = static_cast<uint32_t>(::crc32(0, reinterpret_cast<const Bytef*>(p), static_cast<uInt>(size)));
+  VCHECK(crc == rc, "crc32-huge", "crc32 of a ", size, "-byte input is ", crc, " but zlib gives ", rc);
+  ctx().nontrivial(mix(0x48554745, size));
+  ctx().cls("huge:>=2^29-bytes");
+}
+static void enum_huge(Enum& e) {
+  // one size per shard slot so the cost spreads; quick: just past 2^29, thorough: also just below and 2^29 exactly
+  std::vector<uint64_t> sizes = {(1ULL << 29) + 3};
+  if (e.thorough()) {
+    sizes.push_back((1ULL << 29) - 1);
+    sizes.push_back(1ULL << 29);
+    sizes.push_back((1ULL << 29) + 64 * 1024 + 55);
+  }
+  for (size_t i = 0; i < sizes.size(); i++)
+    if (e.mine(i + 1)) e.exec(Case("huge").N(sizes[i]).N(17 * i + 5));
+  e.complete(cat(sizes.size(), " inputs around 2^29 bytes (where the bit length of the padding exceeds 32 bits)"));
+}
+
+// ---------------------------------------------------------------- concurrent callers
+//
+// The hash functions are pure: calls running at the same time on different inputs must each return the digest of
+// their own input (a shared scratch buffer would make them corrupt each other). n = [threads, len, seed, reps]
+static void run_concurrent(const Case& c) {
+  uint64_t threads = c.u(0), len = c.u(1), seed = c.u(2), reps = c.u(3);
+  if (threads < 2 || threads > 8 || len > (1 << 16) || reps > 2000) throw std::logic_error("C10: concurrent case outside the domain");
+  struct Job {
+    std::string data, md5, sha1, sha256;
+    uint32_t crc, f32;
+    uint64_t f64;
+    std::string failure;
+  };
+  std::vector<Job> jobs(threads);
+  for (uint64_t t = 0; t < threads; t++) {
+    Job& j = jobs[t];
+    j.data = vg::expand(seed + t * 7919, len + t);
+    j.md5 = evp(EVP_md5(), j.data.data(), j.data.size());
+    j.sha1 = evp(EVP_sha1(), j.data.data(), j.data.size());
+    j.sha256 = evp(EVP_sha256(), j.data.data(), j.data.size());
+    j.crc = ref_crc(j.data);
+    j.f32 = ref_fnv32(j.data, 0x811C9DC5u);
+    j.f64 = ref_fnv64(j.data, 0xCBF29CE484222325ULL);
+  }
+  std::atomic<int> ready(0);
+  std::vector<std::thread> ts;
+  for (uint64_t t = 0; t < threads; t++) {
+    ts.emplace_back([&, t] {
+      Job& j = jobs[t];
+      ready.fetch_add(1);
+      while (ready.load() < static_cast<int>(threads)) {
+      }
+      for (uint64_t r = 0; r < reps && j.failure.empty(); r++) {
+        if (phosg::MD5(j.data).bin() != j.md5) j.failure = "MD5";
+        else if (phosg::SHA1(j.data).bin() != j.sha1) j.failure = "SHA1";
+        else if (phosg::SHA256(j.data).bin() != j.sha256) j.failure = "SHA256";
+        else if (phosg::crc32(j.data.data(), j.data.size()) != j.crc) j.failure = "crc32";
+        else if (phosg::fnv1a32(j.data) != j.f32) j.failure = "fnv1a32";
+        else if (phosg::fnv1a64(j.data) != j.f64) j.failure = "fnv1a64";
+      }
+    });
+  }
+  for (auto& t : ts) t.join();
+  for (uint64_t t = 0; t < threads; t++)
+    VCHECK(jobs[t].failure.empty(), cat("concurrent:", jobs[t].failure), jobs[t].failure, " returned a wrong result for a ", jobs[t].data.size(), "-byte input while ", threads - 1, " other threads were hashing other inputs");
+  ctx().nontrivial_case();
+  ctx().cls("concurrent-callers");
+}
+static Case gen_concurrent() {
+  uint64_t len = vg::chance(1, 2) ? vg::below(300) : vg::scaled(16384);
+  return Case("concurrent").N(2 + vg::below(5)).N(len).N(vg::u64()).N(len > 4096 ? 40 : 300);
+}
+
 // ---------------------------------------------------------------- generators
 
 static uint64_t gen_len() {
@@ -273,5 +374,7 @@ int main(int argc, char** argv) {
   checks.push_back({"vectors", run_vectors, nullptr, 0, 0, 100, enum_vectors});
   checks.push_back({"digest", run_digest, gen_digest, 100000, 600000, 100, enum_digest});
   checks.push_back({"chain", run_chain, gen_chain, 100000, 600000, 100, enum_chain});
+  checks.push_back({"concurrent", run_concurrent, gen_concurrent, 400, 4000, 100, nullptr});
+  checks.push_back({"huge", run_huge, nullptr, 0, 0, 100, enum_huge});
   return main_(argc, argv, checks);
 }
